@@ -235,9 +235,8 @@ def expression_of(tgt):
         return tgt.__dict__["_expression_of"]
     # expression statements (calls made for their effect) do not change the value that is returned: skipped
     body = [st for st in tgt.node.body if not isinstance(st, (ast.Expr, ast.Import, ast.ImportFrom, ast.Pass))]
-    env = {}
 
-    def subst_locals(e):
+    def subst_locals(e, env):
         class L(ast.NodeTransformer):
             def visit_Name(self, n):
                 if isinstance(n.ctx, ast.Load) and n.id in env:
@@ -245,29 +244,49 @@ def expression_of(tgt):
                 return n
         return L().visit(copy.deepcopy(e))
 
-    def build(stmts):
+    def only_assignments(stmts):
+        return all(isinstance(x, ast.Assign) and len(x.targets) == 1 and isinstance(x.targets[0], ast.Name)
+                   and x.targets[0].id not in tgt.params for x in stmts)
+
+    def assign_all(stmts, env):
+        env = dict(env)
+        for x in stmts:
+            env[x.targets[0].id] = subst_locals(x.value, env)
+        return env
+
+    def build(stmts, env):
         if not stmts:
             return ast.Constant(value=None)
         st = stmts[0]
         if isinstance(st, ast.Return):
-            return subst_locals(st.value) if st.value is not None else ast.Constant(value=None)
-        if isinstance(st, ast.Assign) and len(st.targets) == 1 and isinstance(st.targets[0], ast.Name) and st.targets[0].id not in env \
-                and st.targets[0].id not in tgt.params:
-            env[st.targets[0].id] = subst_locals(st.value)
-            return build(stmts[1:])
+            return subst_locals(st.value, env) if st.value is not None else ast.Constant(value=None)
+        if isinstance(st, ast.Assign) and len(st.targets) == 1 and isinstance(st.targets[0], ast.Name) and st.targets[0].id not in tgt.params:
+            # (re-)binding of a local: later reads see the new value (the expressions are substituted, so the order is kept)
+            return build(stmts[1:], assign_all([st], env))
+        if isinstance(st, ast.If) and st.body and only_assignments(st.body) and only_assignments(st.orelse):
+            # `x = a` ... `if t: x = b`  -  a conditional re-binding: x is (b if t else a) afterwards
+            t = subst_locals(st.test, env)
+            e_then, e_else = assign_all(st.body, env), assign_all(st.orelse, env)
+            merged = dict(env)
+            for name in set(e_then) | set(e_else):
+                a0, b0 = e_then.get(name), e_else.get(name)
+                if a0 is None or b0 is None:
+                    return None           # unbound on one side
+                merged[name] = a0 if a0 is b0 or ast.dump(a0) == ast.dump(b0) else ast.IfExp(test=copy.deepcopy(t), body=a0, orelse=b0)
+            return build(stmts[1:], merged)
         if isinstance(st, ast.If):
-            then = build(list(st.body))
+            then = build(list(st.body), env)
             if then is None or not _ends_with_return(st.body):
                 return None
-            rest = build(list(st.orelse) + stmts[1:]) if not st.orelse or _ends_with_return(st.orelse) else None
             if st.orelse and not _ends_with_return(st.orelse):
                 return None
+            rest = build(list(st.orelse) + stmts[1:], env)
             if rest is None:
                 return None
-            return ast.IfExp(test=subst_locals(st.test), body=then, orelse=rest)
+            return ast.IfExp(test=subst_locals(st.test, env), body=then, orelse=rest)
         return None
     try:
-        r = build(body)
+        r = build(body, {})
     except Exception:
         r = None
     tgt.__dict__["_expression_of"] = r
